@@ -77,12 +77,23 @@ pub fn plans(w: Wl, read: ReadMode) -> (Plan, Plan) {
 pub type StdPair = Pair<StdApp>;
 
 pub fn std_pair(base: Instant, cfg: &PairCfg, w: Wl, read: ReadMode) -> StdPair {
+    std_pair_pre(base, cfg, w, read, |_| {})
+}
+
+pub fn std_pair_pre(
+    base: Instant,
+    cfg: &PairCfg,
+    w: Wl,
+    read: ReadMode,
+    pre: impl FnOnce(&mut crate::sim::World<StdApp>),
+) -> StdPair {
     let (cp, sp) = plans(w, read);
-    Pair::new(
+    Pair::new_pre(
         base,
         cfg,
         StdApp::new(Side::Client, cp),
         Box::new(move |_, _| StdApp::new(Side::Server, sp.clone())),
+        pre,
     )
 }
 
@@ -448,7 +459,7 @@ pub fn drive(p: &mut StdPair, script: &[(u64, Op)], max_steps: u64, horizon: Dur
             apply_op(p, &op);
             next += 1;
         }
-        if p.w.steps % 4 == 0 && next >= script.len() && workload_done(p) {
+        if next >= script.len() && workload_done(p) {
             return true;
         }
         if p.w.steps >= max_steps {
